@@ -293,6 +293,19 @@ func (eng *Engine) buildIntrinsics() {
 			eng.intr[fn] = in
 			continue
 		}
+		// every other exported entry point of math/big is outside the model: it must
+		// not run on the real representation, which the model does not maintain
+		if fn.Pkg != nil && fn.Pkg.Pkg.Path() == "math/big" && fn.Object() != nil && fn.Object().Exported() {
+			nm := name
+			eng.intr[fn] = func(it *Interp, f *ssa.Function, args []Value) Value {
+				if it.initMode {
+					panic(engineAbort{"unsupported", "math/big function outside the model: " + nm})
+				}
+				it.unsupported("math/big function outside the model: " + nm)
+				return Value{}
+			}
+			continue
+		}
 		if m, ok := modelMap[name]; ok {
 			if m == "" {
 				eng.intr[fn] = noop
